@@ -470,8 +470,6 @@ def _reduce_ext(v, nanaware, is_min, initial=None, name="red"):
         if ini is not None:
             raise Unsupported("nanmin/nanmax with initial")
         c.assume(z3.Implies(z3.Not(m.nan), att))
-    m_ = m
-    m_.ghost_witness = None
     return m
 
 
@@ -506,6 +504,10 @@ def count_nonzero(v):
     c.assume(z3.And(0 <= cnt, cnt <= v.n, v.n >= 0))
     c.assume(z3.Implies(cnt == 0, _forall(v, lambda i: z3.Not(_nonzero(v.at(i), v.kind)))))
     c.assume(z3.Implies(cnt > 0, z3.And(v.indom(w), _nonzero(v.at(w), v.kind))))
+    # exactly one selected element <=> count == 1
+    w2 = _at_const(v)
+    c.assume(z3.Implies(cnt == 1, _forall(v, lambda i: z3.Implies(_nonzero(v.at(i), v.kind), i == w))))
+    c.assume(z3.Implies(cnt >= 2, z3.And(v.indom(w2), w2 != w, _nonzero(v.at(w2), v.kind))))
     if v.dense():
         c.assume(z3.Implies(cnt == v.n, _forall(v, lambda i: _nonzero(v.at(i), v.kind))))
         c.assume(z3.Implies(cnt < v.n, z3.And(v.indom(w0), z3.Not(_nonzero(v.at(w0), v.kind)))))
